@@ -52,73 +52,73 @@ Section GeneratedFormulas.
 
   (** the same step traced into buffers whose row j+1 held garbage: same functions *)
   Lemma fresh2d_alt_same dt lat lon alt VN VE VD C00 C01 C02 C10 C11 C12 C20 C21 C22 th0 th1 th2 dv0 dv1 dv2 :
-    kstep2d_fresh_alt dt lat lon alt VN VE VD C00 C01 C02 C10 C11 C12 C20 C21 C22 th0 th1 th2 dv0 dv1 dv2 =
+    c13_kstep2d_fresh_alt dt lat lon alt VN VE VD C00 C01 C02 C10 C11 C12 C20 C21 C22 th0 th1 th2 dv0 dv1 dv2 =
     step2d_alt dt lat lon alt VN VE VD C00 C01 C02 C10 C11 C12 C20 C21 C22 th0 th1 th2 dv0 dv1 dv2.
   Proof.
-    unfold kstep2d_fresh_alt, step2d_alt. autounfold with step2d_db kstep2d_fresh_db.
+    unfold c13_kstep2d_fresh_alt, step2d_alt. autounfold with step2d_db c13_kstep2d_fresh_db.
     first [reflexivity | ring | field].
   Qed.
 
   Lemma fresh2d_VD_same dt lat lon alt VN VE VD C00 C01 C02 C10 C11 C12 C20 C21 C22 th0 th1 th2 dv0 dv1 dv2 :
-    kstep2d_fresh_VD dt lat lon alt VN VE VD C00 C01 C02 C10 C11 C12 C20 C21 C22 th0 th1 th2 dv0 dv1 dv2 =
+    c13_kstep2d_fresh_VD dt lat lon alt VN VE VD C00 C01 C02 C10 C11 C12 C20 C21 C22 th0 th1 th2 dv0 dv1 dv2 =
     step2d_VD dt lat lon alt VN VE VD C00 C01 C02 C10 C11 C12 C20 C21 C22 th0 th1 th2 dv0 dv1 dv2.
   Proof.
-    unfold kstep2d_fresh_VD, step2d_VD. autounfold with step2d_db kstep2d_fresh_db.
+    unfold c13_kstep2d_fresh_VD, step2d_VD. autounfold with step2d_db c13_kstep2d_fresh_db.
     first [reflexivity | ring | field].
   Qed.
 
   Lemma fresh2d_same dt lat lon alt VN VE VD C00 C01 C02 C10 C11 C12 C20 C21 C22 th0 th1 th2 dv0 dv1 dv2 :
-    kstep2d_fresh_alt dt lat lon alt VN VE VD C00 C01 C02 C10 C11 C12 C20 C21 C22 th0 th1 th2 dv0 dv1 dv2 =
+    c13_kstep2d_fresh_alt dt lat lon alt VN VE VD C00 C01 C02 C10 C11 C12 C20 C21 C22 th0 th1 th2 dv0 dv1 dv2 =
     step2d_alt dt lat lon alt VN VE VD C00 C01 C02 C10 C11 C12 C20 C21 C22 th0 th1 th2 dv0 dv1 dv2 /\
-    kstep2d_fresh_VD dt lat lon alt VN VE VD C00 C01 C02 C10 C11 C12 C20 C21 C22 th0 th1 th2 dv0 dv1 dv2 =
+    c13_kstep2d_fresh_VD dt lat lon alt VN VE VD C00 C01 C02 C10 C11 C12 C20 C21 C22 th0 th1 th2 dv0 dv1 dv2 =
     step2d_VD dt lat lon alt VN VE VD C00 C01 C02 C10 C11 C12 C20 C21 C22 th0 th1 th2 dv0 dv1 dv2.
   Proof. split; [apply fresh2d_alt_same|apply fresh2d_VD_same]. Qed.
 
   (** correct_pva in 2D: altitude and vertical velocity are returned unchanged, for every error vector *)
   Lemma correct2d_alt_same lat lon alt VN VE VD roll pitch heading x0 x1 x2 x3 x4 x5 x6 :
-    correct2d_alt lat lon alt VN VE VD roll pitch heading x0 x1 x2 x3 x4 x5 x6 = alt.
-  Proof. unfold correct2d_alt. autounfold with correct2d_db. first [reflexivity | ring | field]. Qed.
+    c13_correct2d_alt lat lon alt VN VE VD roll pitch heading x0 x1 x2 x3 x4 x5 x6 = alt.
+  Proof. unfold c13_correct2d_alt. autounfold with c13_correct2d_db. first [reflexivity | ring | field]. Qed.
 
   Lemma correct2d_VD_same lat lon alt VN VE VD roll pitch heading x0 x1 x2 x3 x4 x5 x6 :
-    correct2d_VD lat lon alt VN VE VD roll pitch heading x0 x1 x2 x3 x4 x5 x6 = VD.
-  Proof. unfold correct2d_VD. autounfold with correct2d_db. first [reflexivity | ring | field]. Qed.
+    c13_correct2d_VD lat lon alt VN VE VD roll pitch heading x0 x1 x2 x3 x4 x5 x6 = VD.
+  Proof. unfold c13_correct2d_VD. autounfold with c13_correct2d_db. first [reflexivity | ring | field]. Qed.
 
   (** _transform_3d_2d: the DR3 row is zero; the DV3 row is (0,0,0,0,VE,-VN,0) *)
   Definition t3d2d_row_DR3 (VN VE : R) : list R :=
-    [t3d2d_t20 VN VE; t3d2d_t21 VN VE; t3d2d_t22 VN VE; t3d2d_t23 VN VE; t3d2d_t24 VN VE;
-     t3d2d_t25 VN VE; t3d2d_t26 VN VE].
+    [c13_t3d2d_t20 VN VE; c13_t3d2d_t21 VN VE; c13_t3d2d_t22 VN VE; c13_t3d2d_t23 VN VE; c13_t3d2d_t24 VN VE;
+     c13_t3d2d_t25 VN VE; c13_t3d2d_t26 VN VE].
   Definition t3d2d_row_DV3 (VN VE : R) : list R :=
-    [t3d2d_t50 VN VE; t3d2d_t51 VN VE; t3d2d_t52 VN VE; t3d2d_t53 VN VE; t3d2d_t54 VN VE;
-     t3d2d_t55 VN VE; t3d2d_t56 VN VE].
+    [c13_t3d2d_t50 VN VE; c13_t3d2d_t51 VN VE; c13_t3d2d_t52 VN VE; c13_t3d2d_t53 VN VE; c13_t3d2d_t54 VN VE;
+     c13_t3d2d_t55 VN VE; c13_t3d2d_t56 VN VE].
 
   Lemma t3d2d_rows VN VE :
     t3d2d_row_DR3 VN VE = [0; 0; 0; 0; 0; 0; 0] /\
     t3d2d_row_DV3 VN VE = [0; 0; 0; 0; VE; - VN; 0].
   Proof.
-    unfold t3d2d_row_DR3, t3d2d_row_DV3, t3d2d_t20, t3d2d_t21, t3d2d_t22, t3d2d_t23, t3d2d_t24,
-      t3d2d_t25, t3d2d_t26, t3d2d_t50, t3d2d_t51, t3d2d_t52, t3d2d_t53, t3d2d_t54, t3d2d_t55, t3d2d_t56.
-    autounfold with t3d2d_db. split; repeat f_equal; first [reflexivity | ring].
+    unfold t3d2d_row_DR3, t3d2d_row_DV3, c13_t3d2d_t20, c13_t3d2d_t21, c13_t3d2d_t22, c13_t3d2d_t23, c13_t3d2d_t24,
+      c13_t3d2d_t25, c13_t3d2d_t26, c13_t3d2d_t50, c13_t3d2d_t51, c13_t3d2d_t52, c13_t3d2d_t53, c13_t3d2d_t54, c13_t3d2d_t55, c13_t3d2d_t56.
+    autounfold with c13_t3d2d_db. split; repeat f_equal; first [reflexivity | ring].
   Qed.
 
   (** transform_to_output in 2D: rows "down" (2) and "VD" (5) *)
   Definition out2d_row_down (lat lon alt VN VE VD roll pitch heading : R) : list R :=
-    [out2d_o20 lat lon alt VN VE VD roll pitch heading; out2d_o21 lat lon alt VN VE VD roll pitch heading;
-     out2d_o22 lat lon alt VN VE VD roll pitch heading; out2d_o23 lat lon alt VN VE VD roll pitch heading;
-     out2d_o24 lat lon alt VN VE VD roll pitch heading; out2d_o25 lat lon alt VN VE VD roll pitch heading;
-     out2d_o26 lat lon alt VN VE VD roll pitch heading].
+    [c13_out2d_o20 lat lon alt VN VE VD roll pitch heading; c13_out2d_o21 lat lon alt VN VE VD roll pitch heading;
+     c13_out2d_o22 lat lon alt VN VE VD roll pitch heading; c13_out2d_o23 lat lon alt VN VE VD roll pitch heading;
+     c13_out2d_o24 lat lon alt VN VE VD roll pitch heading; c13_out2d_o25 lat lon alt VN VE VD roll pitch heading;
+     c13_out2d_o26 lat lon alt VN VE VD roll pitch heading].
   Definition out2d_row_VD (lat lon alt VN VE VD roll pitch heading : R) : list R :=
-    [out2d_o50 lat lon alt VN VE VD roll pitch heading; out2d_o51 lat lon alt VN VE VD roll pitch heading;
-     out2d_o52 lat lon alt VN VE VD roll pitch heading; out2d_o53 lat lon alt VN VE VD roll pitch heading;
-     out2d_o54 lat lon alt VN VE VD roll pitch heading; out2d_o55 lat lon alt VN VE VD roll pitch heading;
-     out2d_o56 lat lon alt VN VE VD roll pitch heading].
+    [c13_out2d_o50 lat lon alt VN VE VD roll pitch heading; c13_out2d_o51 lat lon alt VN VE VD roll pitch heading;
+     c13_out2d_o52 lat lon alt VN VE VD roll pitch heading; c13_out2d_o53 lat lon alt VN VE VD roll pitch heading;
+     c13_out2d_o54 lat lon alt VN VE VD roll pitch heading; c13_out2d_o55 lat lon alt VN VE VD roll pitch heading;
+     c13_out2d_o56 lat lon alt VN VE VD roll pitch heading].
 
   Lemma out2d_rows_zero lat lon alt VN VE VD roll pitch heading :
     out2d_row_down lat lon alt VN VE VD roll pitch heading = repeat 0 7 /\
     out2d_row_VD lat lon alt VN VE VD roll pitch heading = repeat 0 7.
   Proof.
-    unfold out2d_row_down, out2d_row_VD, out2d_o20, out2d_o21, out2d_o22, out2d_o23, out2d_o24, out2d_o25,
-      out2d_o26, out2d_o50, out2d_o51, out2d_o52, out2d_o53, out2d_o54, out2d_o55, out2d_o56.
-    autounfold with out2d_db. cbn [repeat]. split; repeat f_equal; first [reflexivity | ring].
+    unfold out2d_row_down, out2d_row_VD, c13_out2d_o20, c13_out2d_o21, c13_out2d_o22, c13_out2d_o23, c13_out2d_o24, c13_out2d_o25,
+      c13_out2d_o26, c13_out2d_o50, c13_out2d_o51, c13_out2d_o52, c13_out2d_o53, c13_out2d_o54, c13_out2d_o55, c13_out2d_o56.
+    autounfold with c13_out2d_db. cbn [repeat]. split; repeat f_equal; first [reflexivity | ring].
   Qed.
 
   (** variance of an output component: (T P T^T)_kk = sum_i sum_j T_ki P_ij T_kj, P any matrix *)
@@ -142,23 +142,23 @@ Section GeneratedFormulas.
 
   (** position / NED velocity Jacobians in 2D: the two horizontal rows only *)
   Definition poserr2d_matrix (lat lon alt VN VE VD roll pitch heading : R) : list (list R) :=
-    [[poserr2d_h00 lat lon alt VN VE VD roll pitch heading; poserr2d_h01 lat lon alt VN VE VD roll pitch heading;
-      poserr2d_h02 lat lon alt VN VE VD roll pitch heading; poserr2d_h03 lat lon alt VN VE VD roll pitch heading;
-      poserr2d_h04 lat lon alt VN VE VD roll pitch heading; poserr2d_h05 lat lon alt VN VE VD roll pitch heading;
-      poserr2d_h06 lat lon alt VN VE VD roll pitch heading];
-     [poserr2d_h10 lat lon alt VN VE VD roll pitch heading; poserr2d_h11 lat lon alt VN VE VD roll pitch heading;
-      poserr2d_h12 lat lon alt VN VE VD roll pitch heading; poserr2d_h13 lat lon alt VN VE VD roll pitch heading;
-      poserr2d_h14 lat lon alt VN VE VD roll pitch heading; poserr2d_h15 lat lon alt VN VE VD roll pitch heading;
-      poserr2d_h16 lat lon alt VN VE VD roll pitch heading]].
+    [[c13_poserr2d_h00 lat lon alt VN VE VD roll pitch heading; c13_poserr2d_h01 lat lon alt VN VE VD roll pitch heading;
+      c13_poserr2d_h02 lat lon alt VN VE VD roll pitch heading; c13_poserr2d_h03 lat lon alt VN VE VD roll pitch heading;
+      c13_poserr2d_h04 lat lon alt VN VE VD roll pitch heading; c13_poserr2d_h05 lat lon alt VN VE VD roll pitch heading;
+      c13_poserr2d_h06 lat lon alt VN VE VD roll pitch heading];
+     [c13_poserr2d_h10 lat lon alt VN VE VD roll pitch heading; c13_poserr2d_h11 lat lon alt VN VE VD roll pitch heading;
+      c13_poserr2d_h12 lat lon alt VN VE VD roll pitch heading; c13_poserr2d_h13 lat lon alt VN VE VD roll pitch heading;
+      c13_poserr2d_h14 lat lon alt VN VE VD roll pitch heading; c13_poserr2d_h15 lat lon alt VN VE VD roll pitch heading;
+      c13_poserr2d_h16 lat lon alt VN VE VD roll pitch heading]].
   Definition velerr2d_matrix (lat lon alt VN VE VD roll pitch heading : R) : list (list R) :=
-    [[velerr2d_h00 lat lon alt VN VE VD roll pitch heading; velerr2d_h01 lat lon alt VN VE VD roll pitch heading;
-      velerr2d_h02 lat lon alt VN VE VD roll pitch heading; velerr2d_h03 lat lon alt VN VE VD roll pitch heading;
-      velerr2d_h04 lat lon alt VN VE VD roll pitch heading; velerr2d_h05 lat lon alt VN VE VD roll pitch heading;
-      velerr2d_h06 lat lon alt VN VE VD roll pitch heading];
-     [velerr2d_h10 lat lon alt VN VE VD roll pitch heading; velerr2d_h11 lat lon alt VN VE VD roll pitch heading;
-      velerr2d_h12 lat lon alt VN VE VD roll pitch heading; velerr2d_h13 lat lon alt VN VE VD roll pitch heading;
-      velerr2d_h14 lat lon alt VN VE VD roll pitch heading; velerr2d_h15 lat lon alt VN VE VD roll pitch heading;
-      velerr2d_h16 lat lon alt VN VE VD roll pitch heading]].
+    [[c13_velerr2d_h00 lat lon alt VN VE VD roll pitch heading; c13_velerr2d_h01 lat lon alt VN VE VD roll pitch heading;
+      c13_velerr2d_h02 lat lon alt VN VE VD roll pitch heading; c13_velerr2d_h03 lat lon alt VN VE VD roll pitch heading;
+      c13_velerr2d_h04 lat lon alt VN VE VD roll pitch heading; c13_velerr2d_h05 lat lon alt VN VE VD roll pitch heading;
+      c13_velerr2d_h06 lat lon alt VN VE VD roll pitch heading];
+     [c13_velerr2d_h10 lat lon alt VN VE VD roll pitch heading; c13_velerr2d_h11 lat lon alt VN VE VD roll pitch heading;
+      c13_velerr2d_h12 lat lon alt VN VE VD roll pitch heading; c13_velerr2d_h13 lat lon alt VN VE VD roll pitch heading;
+      c13_velerr2d_h14 lat lon alt VN VE VD roll pitch heading; c13_velerr2d_h15 lat lon alt VN VE VD roll pitch heading;
+      c13_velerr2d_h16 lat lon alt VN VE VD roll pitch heading]].
 
   Lemma meas2d_rows lat lon alt VN VE VD roll pitch heading :
     poserr2d_matrix lat lon alt VN VE VD roll pitch heading =
@@ -167,11 +167,11 @@ Section GeneratedFormulas.
       [[0; 0; 1; 0; 0; - VD; VE]; [0; 0; 0; 1; VD; 0; - VN]].
   Proof.
     unfold poserr2d_matrix, velerr2d_matrix,
-      poserr2d_h00, poserr2d_h01, poserr2d_h02, poserr2d_h03, poserr2d_h04, poserr2d_h05, poserr2d_h06,
-      poserr2d_h10, poserr2d_h11, poserr2d_h12, poserr2d_h13, poserr2d_h14, poserr2d_h15, poserr2d_h16,
-      velerr2d_h00, velerr2d_h01, velerr2d_h02, velerr2d_h03, velerr2d_h04, velerr2d_h05, velerr2d_h06,
-      velerr2d_h10, velerr2d_h11, velerr2d_h12, velerr2d_h13, velerr2d_h14, velerr2d_h15, velerr2d_h16.
-    autounfold with poserr2d_db velerr2d_db. split; repeat f_equal; first [reflexivity | ring].
+      c13_poserr2d_h00, c13_poserr2d_h01, c13_poserr2d_h02, c13_poserr2d_h03, c13_poserr2d_h04, c13_poserr2d_h05, c13_poserr2d_h06,
+      c13_poserr2d_h10, c13_poserr2d_h11, c13_poserr2d_h12, c13_poserr2d_h13, c13_poserr2d_h14, c13_poserr2d_h15, c13_poserr2d_h16,
+      c13_velerr2d_h00, c13_velerr2d_h01, c13_velerr2d_h02, c13_velerr2d_h03, c13_velerr2d_h04, c13_velerr2d_h05, c13_velerr2d_h06,
+      c13_velerr2d_h10, c13_velerr2d_h11, c13_velerr2d_h12, c13_velerr2d_h13, c13_velerr2d_h14, c13_velerr2d_h15, c13_velerr2d_h16.
+    autounfold with c13_poserr2d_db c13_velerr2d_db. split; repeat f_equal; first [reflexivity | ring].
   Qed.
 End GeneratedFormulas.
 
@@ -499,9 +499,9 @@ Definition app16
 
 (** InsErrorModel(with_altitude=False).correct_pva (generated formulas) *)
 Definition correct2d (p : pva) (x : err7) : pva :=
-  mkP (app16 correct2d_lat p x) (app16 correct2d_lon p x) (app16 correct2d_alt p x)
-      (app16 correct2d_VN p x) (app16 correct2d_VE p x) (app16 correct2d_VD p x)
-      (app16 correct2d_roll p x) (app16 correct2d_pitch p x) (app16 correct2d_heading p x).
+  mkP (app16 c13_correct2d_lat p x) (app16 c13_correct2d_lon p x) (app16 c13_correct2d_alt p x)
+      (app16 c13_correct2d_VN p x) (app16 c13_correct2d_VE p x) (app16 c13_correct2d_VD p x)
+      (app16 c13_correct2d_roll p x) (app16 c13_correct2d_pitch p x) (app16 c13_correct2d_heading p x).
 
 Lemma correct2d_keeps_vertical p x :
   p_alt (correct2d p x) = p_alt p /\ p_VD (correct2d p x) = p_VD p.
